@@ -22,7 +22,7 @@ Init == l \in 1..N
 Next == UNCHANGED l
 
 RECURSIVE SeqOf(_)
-SeqOf(S) == IF S = {} THEN <<>> ELSE LET x == CHOOSE y \in S : TRUE IN <<x>> \o SeqOf(S \ {x})
+SeqOf(A) == IF A = {} THEN <<>> ELSE LET x == CHOOSE y \in A : TRUE IN <<x>> \o SeqOf(A \ {x})
 
 Judge ==
   LET rec == Rec[l]
